@@ -189,6 +189,11 @@ type model struct {
 	expRegister *msc
 	endsSticky  bool
 	wasSticky   bool
+	// subchannels the model created AND dropped within the current op, before the
+	// real subchannel was seen (bound by judgeModel)
+	droppedNew     []*msc
+	selectedThisOp bool
+	closed         bool
 
 	// evidence
 	passes, timerFires, reusedTF, reusedConnecting, passEnds, readies, lost, maxAttempted int
@@ -205,6 +210,36 @@ func (m *model) beginOp() {
 	m.expRegister = nil
 	m.endsSticky = false
 	m.wasSticky = m.mac == mStickyTF
+	m.droppedNew = nil
+	m.selectedThisOp = false
+}
+
+// clone deep-copies the model (for judging both legal orders of a race).
+func (m *model) clone() *model {
+	c := *m
+	c.failed = map[string]bool{}
+	for k, v := range m.failed {
+		c.failed[k] = v
+	}
+	c.live = map[string]*msc{}
+	remap := map[*msc]*msc{}
+	for k, v := range m.live {
+		nv := *v
+		c.live[k] = &nv
+		remap[v] = &nv
+	}
+	if m.selected != nil {
+		c.selected = remap[m.selected]
+	}
+	c.expRegister = nil
+	c.expShutdown = map[*lbfake.SubConn]bool{}
+	c.expOrdered, c.expSet, c.droppedNew = nil, nil, nil
+	if m.healthState != nil {
+		hs := *m.healthState
+		c.healthState = &hs
+	}
+	c.list = append([]string(nil), m.list...)
+	return &c
 }
 
 func contains(l []string, a string) bool {
@@ -289,6 +324,8 @@ func (m *model) shutdownOthers(keep *msc) {
 		if s != keep {
 			if s.sc != nil {
 				m.expShutdown[s.sc] = true
+			} else {
+				m.droppedNew = append(m.droppedNew, s)
 			}
 			delete(m.live, a)
 		}
@@ -314,6 +351,8 @@ func (m *model) update(list []string, health bool, now time.Time) {
 		if !contains(list, a) {
 			if s.sc != nil {
 				m.expShutdown[s.sc] = true
+			} else {
+				m.droppedNew = append(m.droppedNew, s)
 			}
 			delete(m.live, a)
 		}
@@ -351,6 +390,7 @@ func (m *model) deliver(sc *lbfake.SubConn, st connectivity.State, now time.Time
 	if st == connectivity.Ready {
 		m.shutdownOthers(s)
 		m.selected, m.mac, m.endsSticky, m.healthState = s, mReady, true, nil
+		m.selectedThisOp = true
 		s.healthReg = m.health
 		if m.health {
 			m.expRegister = s
@@ -443,8 +483,9 @@ type harness struct {
 	pool  []string
 	start time.Time
 
-	everFailed        map[*lbfake.SubConn]bool
-	stickyFindingHits int
+	everFailed                            map[*lbfake.SubConn]bool
+	stickyFindingHits                     int
+	races, raceTimerFirst, raceEventFirst int
 
 	staleDeliveries, healthDeliveries, updates, emptyUpdates, resolverErrors, picks, dupInputs, qchecks int
 	famsSeen                                                                                            map[afam]bool
@@ -746,27 +787,59 @@ func (h *harness) judge() {
 		return
 	}
 	h.qchecks++
-	m := h.m
+	h.applyVerdict(h.judgeModel(h.m))
+}
+
+// verdict is the outcome of judging the events since h.mark against one model.
+type verdict struct {
+	key, msg string // key == "": the model explains what was observed
+	flags    []flagRec
+}
+
+type flagRec struct{ key, msg string }
+
+func (h *harness) applyVerdict(v verdict) {
+	for _, f := range v.flags {
+		h.flag(f.key, "%s", f.msg)
+		h.stickyFindingHits++
+	}
+	if v.key != "" {
+		h.violate(v.key, "%s", v.msg)
+	}
+}
+
+// judgeModel has no side effects on the harness; it binds newly created
+// subchannels into m (which may be a clone).
+func (h *harness) judgeModel(m *model) (v verdict) {
+	fail := func(key, format string, args ...any) verdict {
+		v.key, v.msg = key, fmt.Sprintf(format, args...)
+		return v
+	}
 	evs := h.cc.Since(h.mark)
+	readyDone := false // the policy visibly processed the READY of this event
 	ord, set := m.expOrdered, append([]expConn(nil), m.expSet...)
 	seenShut := map[*lbfake.SubConn]bool{}
 	regSeen := false
 	for _, e := range evs {
 		switch e.Kind {
 		case lbfake.NewSubConn:
+			if readyDone {
+				return fail("attempt-after-ready", "NewSubConn(%v) at t=%v was logged AFTER pick_first had processed the READY of %v: a cancelled attempt timer still acted", e.Addrs, e.At.Sub(h.start), m.selected.sc)
+			}
 			if len(e.Addrs) != 1 {
-				h.violate("subconn-with-many-addresses", "NewSubConn with %d addresses", len(e.Addrs))
-				return
+				return fail("subconn-with-many-addresses", "NewSubConn with %d addresses", len(e.Addrs))
 			}
 		case lbfake.Connect:
 			a := e.SC.Addr().Addr
+			if readyDone {
+				return fail("attempt-after-ready", "Connect on %s at t=%v was logged AFTER pick_first had processed the READY of %v (shut the others down / reported): a cancelled attempt timer still acted", a, e.At.Sub(h.start), m.selected.sc)
+			}
 			var want expConn
 			switch {
 			case len(ord) > 0:
 				want, ord = ord[0], ord[1:]
 				if want.addr != a {
-					h.violate("connect-out-of-order", "Connect on %s, but the next attempt of this pass must go to %s (reference order %v)", a, want.addr, m.list)
-					return
+					return fail("connect-out-of-order", "Connect on %s, but the next attempt of this pass must go to %s (reference order %v)", a, want.addr, m.list)
 				}
 			default:
 				j := -1
@@ -780,30 +853,41 @@ func (h *harness) judge() {
 					if h.connectsThisOp(evs, a) > 1 {
 						key = "second-attempt-on-address"
 					}
-					h.violate(key, "Connect on %s at t=%v which the reference model does not allow now", a, e.At.Sub(h.start))
-					return
+					return fail(key, "Connect on %s at t=%v which the reference model does not allow now", a, e.At.Sub(h.start))
 				}
 				want = set[j]
 				set = append(set[:j], set[j+1:]...)
 			}
 			if !e.At.Equal(want.at) {
-				h.violate("connect-at-wrong-time", "Connect on %s happened at t=%v, the reference expects t=%v", a, e.At.Sub(h.start), want.at.Sub(h.start))
-				return
+				return fail("connect-at-wrong-time", "Connect on %s happened at t=%v, the reference expects t=%v", a, e.At.Sub(h.start), want.at.Sub(h.start))
 			}
 			s := m.live[a]
 			if s == nil {
-				h.violate("connect-on-dropped-subconn", "Connect on %s which is not a subchannel pick_first should hold", a)
-				return
+				// attempted and dropped within this very event (timer-driven attempt
+				// immediately followed by READY / Close / a new list at the same instant)
+				for _, d := range m.droppedNew {
+					if d.addr == a && d.sc == nil {
+						d.sc = e.SC
+						m.expShutdown[e.SC] = true
+						s = d
+						break
+					}
+				}
+				if s != nil || m.expShutdown[e.SC] {
+					// (or a known subchannel that was attempted and then dropped at this instant)
+					continue
+				}
+			}
+			if s == nil {
+				return fail("connect-on-dropped-subconn", "Connect on %s which is not a subchannel pick_first should hold", a)
 			}
 			if s.sc == nil {
 				if e.SC.IsShutdown() {
-					h.violate("connect-on-shutdown-subconn", "Connect on the already shut down %v", e.SC)
-					return
+					return fail("connect-on-shutdown-subconn", "Connect on the already shut down %v", e.SC)
 				}
 				s.sc = e.SC
 			} else if s.sc != e.SC {
-				h.violate("connect-on-wrong-subconn", "Connect on %v, but the live subchannel of %s is %v", e.SC, a, s.sc)
-				return
+				return fail("connect-on-wrong-subconn", "Connect on %v, but the live subchannel of %s is %v", e.SC, a, s.sc)
 			}
 		case lbfake.Shutdown:
 			if !m.expShutdown[e.SC] {
@@ -811,17 +895,21 @@ func (h *harness) judge() {
 				if m.selected != nil && m.selected.sc == e.SC {
 					key = "ready-subconn-shutdown"
 				}
-				h.violate(key, "%v was shut down although the reference keeps it", e.SC)
-				return
+				return fail(key, "%v was shut down although the reference keeps it", e.SC)
 			}
 			seenShut[e.SC] = true
+			if m.selectedThisOp {
+				readyDone = true
+			}
 		case lbfake.RegisterHealthListener:
 			if m.expRegister == nil || m.expRegister.sc != e.SC {
-				h.violate("unexpected-health-listener", "health listener registered on %v", e.SC)
-				return
+				return fail("unexpected-health-listener", "health listener registered on %v", e.SC)
 			}
 			regSeen = true
 		case lbfake.UpdateState:
+			if m.selectedThisOp {
+				readyDone = true
+			}
 			// sticky TRANSIENT_FAILURE: nothing but TF while sticky, unless this very event ends it
 			if m.wasSticky && !m.endsSticky && e.State.ConnectivityState != connectivity.TransientFailure {
 				if fresh := h.freshConnecting(evs); fresh != nil && e.State.ConnectivityState == connectivity.Connecting {
@@ -829,20 +917,17 @@ func (h *harness) judge() {
 					// never failed (created by a resolver update that arrived in sticky TF)
 					// is reported to the channel.  Flag it, then follow the implementation so
 					// that the rest of the history is still judged.
-					h.flag("sticky-tf-broken-by-new-subconn-connecting", "reported CONNECTING while in sticky TRANSIENT_FAILURE: subchannel %v, created after the policy entered TRANSIENT_FAILURE, reported CONNECTING and no subchannel became READY", fresh)
-					h.stickyFindingHits++
+					v.flags = append(v.flags, flagRec{"sticky-tf-broken-by-new-subconn-connecting", fmt.Sprintf("reported CONNECTING while in sticky TRANSIENT_FAILURE: subchannel %v, created after the policy entered TRANSIENT_FAILURE, reported CONNECTING and no subchannel became READY", fresh)})
 					m.mac = mConnecting
 					m.wasSticky = false
 					continue
 				}
-				h.violate("sticky-tf-broken", "reported %v while in sticky TRANSIENT_FAILURE (no subchannel became READY since every address failed)", e.State.ConnectivityState)
-				return
+				return fail("sticky-tf-broken", "reported %v while in sticky TRANSIENT_FAILURE (no subchannel became READY since every address failed)", e.State.ConnectivityState)
 			}
 		}
 	}
 	if len(ord) > 0 || len(set) > 0 {
-		h.violate("connect-missing", "expected connection attempts did not happen: ordered %v, unordered %v", names(ord, h.start), names(set, h.start))
-		return
+		return fail("connect-missing", "expected connection attempts did not happen: ordered %v, unordered %v", names(ord, h.start), names(set, h.start))
 	}
 	for sc := range m.expShutdown {
 		if !seenShut[sc] {
@@ -850,13 +935,19 @@ func (h *harness) judge() {
 			if m.selected != nil {
 				key = "others-not-shutdown-after-ready"
 			}
-			h.violate(key, "%v must be shut down now (macro %v) but Shutdown was not called", sc, m.mac)
-			return
+			return fail(key, "%v must be shut down now (macro %v) but Shutdown was not called", sc, m.mac)
 		}
 	}
 	if m.expRegister != nil && !regSeen {
-		h.violate("health-listener-missing", "READY subchannel %v: no health listener registered although the resolver enabled it", m.expRegister.sc)
-		return
+		return fail("health-listener-missing", "READY subchannel %v: no health listener registered although the resolver enabled it", m.expRegister.sc)
+	}
+	if m.closed {
+		for _, sc := range h.cc.SubConns() {
+			if !sc.IsShutdown() {
+				return fail("subconn-not-shutdown", "%v survived Close of the policy", sc)
+			}
+		}
+		return v
 	}
 	// quiescent-point facts
 	st, n := h.cc.LastState()
@@ -875,12 +966,10 @@ func (h *harness) judge() {
 			case n > 0 && st.ConnectivityState == connectivity.Ready:
 				key = "ready-reported-without-ready-subconn"
 			}
-			h.violate(key, "channel sees %s, reference says %v (macro %v)", got, want, m.mac)
-			return
+			return fail(key, "channel sees %s, reference says %v (macro %v)", got, want, m.mac)
 		}
 	} else if n != 0 {
-		h.violate("reported-state-mismatch", "a state (%v) was reported before any resolver data arrived", st.ConnectivityState)
-		return
+		return fail("reported-state-mismatch", "a state (%v) was reported before any resolver data arrived", st.ConnectivityState)
 	}
 	if n > 0 && st.ConnectivityState != connectivity.Idle && st.Picker != nil {
 		res, err := st.Picker.Pick(balancer.PickInfo{})
@@ -888,22 +977,20 @@ func (h *harness) judge() {
 		if err == nil && res.SubConn != nil {
 			last, _ := gotSC.Last()
 			if gotSC == nil || m.selected == nil || m.selected.sc != gotSC || gotSC.IsShutdown() || last.ConnectivityState != connectivity.Ready {
-				h.violate("picker-returned-non-ready-subconn", "picker (state %v) returned %v: shutdown=%v last delivered=%v", st.ConnectivityState, res.SubConn, gotSC != nil && gotSC.IsShutdown(), last.ConnectivityState)
-				return
+				return fail("picker-returned-non-ready-subconn", "picker (state %v) returned %v: shutdown=%v last delivered=%v", st.ConnectivityState, res.SubConn, gotSC != nil && gotSC.IsShutdown(), last.ConnectivityState)
 			}
 		} else if st.ConnectivityState == connectivity.Ready {
-			h.violate("ready-picker-returns-nothing", "state READY but the picker returned (%v, %v)", res.SubConn, err)
-			return
+			return fail("ready-picker-returns-nothing", "state READY but the picker returned (%v, %v)", res.SubConn, err)
 		}
 	}
 	if m.selected != nil {
 		for _, sc := range h.cc.SubConns() {
 			if sc != m.selected.sc && !sc.IsShutdown() {
-				h.violate("others-not-shutdown-after-ready", "%v is READY but %v is still alive", m.selected.sc, sc)
-				return
+				return fail("others-not-shutdown-after-ready", "%v is READY but %v is still alive", m.selected.sc, sc)
 			}
 		}
 	}
+	return v
 }
 
 func (h *harness) connectsThisOp(evs []lbfake.Event, addr string) int {
@@ -924,10 +1011,282 @@ func names(l []expConn, start time.Time) []string {
 	return out
 }
 
+// ---------------------------------------------------------------- events racing with the attempt timer
+
+// raceEvent is a scripted event that is delivered at EXACTLY the virtual
+// instant at which the happy-eyeballs attempt timer expires: the script
+// goroutine time.Sleep()s until that instant, so it becomes runnable together
+// with the timer's AfterFunc goroutine and genuinely races with it for the
+// policy's mutex.  Both orders are legal on correct code, so the observation at
+// the following quiescent point is judged against two reference runs
+// (timer-then-event, event-then-timer-if-still-armed) and must match one.  A
+// timer the event cancelled must not act afterwards.
+type raceEvent struct {
+	kind  string
+	desc  string
+	model func(m *model, now time.Time)
+	real  func()
+}
+
+func (h *harness) evDeliver(sc *lbfake.SubConn, st connectivity.State) raceEvent {
+	return raceEvent{
+		kind: "deliver-" + st.String(),
+		desc: fmt.Sprintf("deliver %v to %v", st, sc),
+		model: func(m *model, now time.Time) {
+			m.deliver(sc, st, now)
+		},
+		real: func() {
+			if st == connectivity.TransientFailure {
+				h.everFailed[sc] = true
+			}
+			ss := balancer.SubConnState{ConnectivityState: st}
+			if st == connectivity.TransientFailure {
+				ss.ConnectionError = fmt.Errorf("connect to %s failed", sc.Addr().Addr)
+			}
+			sc.Deliver(ss)
+		},
+	}
+}
+
+func (h *harness) evUpdate(u updateIn) raceEvent {
+	list := preprocess(u.input())
+	return raceEvent{
+		kind:  "resolver-update",
+		desc:  fmt.Sprintf("resolver update -> reference list %v (health=%v)", list, u.health),
+		model: func(m *model, now time.Time) { m.update(list, u.health, now) },
+		real: func() {
+			h.updates++
+			err := h.b.UpdateClientConnState(u.state())
+			if (len(list) == 0) != (err != nil) {
+				h.violate("update-result-wrong", "resolver update %v returned %v", u.input(), err)
+			}
+		},
+	}
+}
+
+func (h *harness) evResolverError() raceEvent {
+	return raceEvent{
+		kind: "resolver-error", desc: "resolver error",
+		model: func(m *model, _ time.Time) {
+			if m.mac == mInit {
+				m.initTouched = true
+			}
+		},
+		real: func() { h.resolverErrors++; h.b.ResolverError(errors.New("c34 resolver error")) },
+	}
+}
+
+func (h *harness) evExitIdle() raceEvent {
+	return raceEvent{
+		kind: "exit-idle", desc: "ExitIdle",
+		model: func(m *model, now time.Time) { m.exitIdle(now) },
+		real:  func() { h.b.ExitIdle() },
+	}
+}
+
+func (h *harness) evClose() raceEvent {
+	return raceEvent{
+		kind: "close", desc: "Close",
+		model: func(m *model, _ time.Time) {
+			m.shutdownOthers(nil)
+			m.selected, m.closed = nil, true
+		},
+		real: func() { h.b.Close() },
+	}
+}
+
+// opRace delivers ev at the instant the armed attempt timer expires.  It
+// returns false (and does nothing) if no timer is armed.
+func (h *harness) opRace(ev raceEvent) bool {
+	if h.bad || !h.m.timerArmed {
+		return false
+	}
+	now := h.begin()
+	T := h.m.timerAt
+	if !T.After(now) {
+		return false
+	}
+	a := h.m.clone() // the timer's callback takes the policy's mutex first
+	a.beginOp()
+	a.advance(T)
+	ev.model(a, T)
+	a.advance(T)
+	b := h.m.clone() // the event takes it first (and usually cancels the timer)
+	b.beginOp()
+	ev.model(b, T)
+	b.advance(T)
+	h.opf("RACE at the timer instant (+%v): %s", T.Sub(now), ev.desc)
+	time.Sleep(T.Sub(now)) // wakes at the same virtual instant as the timer's AfterFunc
+	ev.real()
+	synctest.Wait()
+	if h.bad {
+		return true
+	}
+	h.qchecks++
+	h.races++
+	h.r.Count("race_events_at_timer_instant", 1)
+	h.r.Count("race_kind_"+ev.kind, 1)
+	va, vb := h.judgeModel(a), h.judgeModel(b)
+	switch {
+	case va.key == "" && vb.key == "":
+		h.r.Count("race_order_indistinguishable", 1)
+		h.m = a
+		h.applyVerdict(va)
+	case va.key == "":
+		h.r.Count("race_order_timer_first", 1)
+		h.r.Count("race_order_timer_first_"+ev.kind, 1)
+		h.raceTimerFirst++
+		h.m = a
+		h.applyVerdict(va)
+	case vb.key == "":
+		h.r.Count("race_order_event_first", 1)
+		h.r.Count("race_order_event_first_"+ev.kind, 1)
+		h.raceEventFirst++
+		h.m = b
+		h.applyVerdict(vb)
+	default:
+		key := vb.key
+		if va.key == "attempt-after-ready" {
+			key = va.key
+		}
+		h.violate(key, "event %q delivered at the attempt timer's instant: the outcome matches neither legal order. If the timer ran first: [%s] %s. If the event ran first (timer cancelled): [%s] %s", ev.desc, va.key, va.msg, vb.key, vb.msg)
+	}
+	return true
+}
+
+// randomRace picks an event to race with the armed timer.
+func (h *harness) randomRace() bool {
+	if !h.m.timerArmed {
+		return false
+	}
+	rng := h.rng
+	x := rng.Intn(100)
+	switch {
+	case x < 70:
+		// a legal transition of a live subchannel; READY of an in-flight one preferred
+		type cand struct {
+			sc *lbfake.SubConn
+			st connectivity.State
+		}
+		var ready, other []cand
+		for _, sc := range h.cc.SubConns() {
+			if sc.IsShutdown() {
+				continue
+			}
+			for _, st := range sc.NextStates() {
+				if st == connectivity.Ready {
+					ready = append(ready, cand{sc, st})
+				} else {
+					other = append(other, cand{sc, st})
+				}
+			}
+		}
+		var c cand
+		switch {
+		case len(ready) > 0 && (len(other) == 0 || rng.Intn(3) != 0):
+			c = ready[rng.Intn(len(ready))]
+		case len(other) > 0:
+			c = other[rng.Intn(len(other))]
+		default:
+			return false
+		}
+		return h.opRace(h.evDeliver(c.sc, c.st))
+	case x < 85:
+		u := h.genUpdate(6)
+		if rng.Intn(8) == 0 {
+			u = updateIn{}
+		}
+		return h.opRace(h.evUpdate(u))
+	case x < 92:
+		return h.opRace(h.evResolverError())
+	default:
+		return h.opRace(h.evExitIdle())
+	}
+}
+
+// ---------------------------------------------------------------- family "race": READY (mostly) exactly at the timer instant
+
+func runRaceCase(t *testing.T, r *vlib.Run, i int) {
+	const fam = "race"
+	rng := r.Rand(fam, i)
+	r.Progress(fam, i, "")
+	synctest.Test(t, func(t *testing.T) {
+		h := newHarness(r, fam, i, rng)
+		// 3..6 distinct addresses of mixed families
+		h.pool = nil
+		for k := 0; k < 3; k++ {
+			h.pool = append(h.pool, fmt.Sprintf("10.2.0.%d:80", k+1), fmt.Sprintf("[fd02::%x]:80", k+1))
+		}
+		rng.Shuffle(len(h.pool), func(a, b int) { h.pool[a], h.pool[b] = h.pool[b], h.pool[a] })
+		n := 3 + rng.Intn(4)
+		u := updateIn{flat: append([]string(nil), h.pool[:n]...), health: rng.Intn(4) == 0}
+		h.opUpdate(u)
+		inflight := func() []*lbfake.SubConn {
+			var out []*lbfake.SubConn
+			for _, sc := range h.cc.SubConns() {
+				if l, ok := sc.Last(); ok && !sc.IsShutdown() && l.ConnectivityState == connectivity.Connecting {
+					out = append(out, sc)
+				}
+			}
+			return out
+		}
+		connectAll := func() {
+			for _, sc := range h.cc.SubConns() {
+				if !sc.IsShutdown() && !h.bad {
+					if ns := sc.NextStates(); len(ns) == 1 && ns[0] == connectivity.Connecting {
+						h.opDeliver(sc, connectivity.Connecting)
+					}
+				}
+			}
+		}
+		connectAll()
+		// let 0..2 timer periods pass un-raced so that a later address is the one being attempted
+		for k := rng.Intn(3); k > 0 && h.m.timerArmed && h.m.idx+2 < len(h.m.list) && !h.bad; k-- {
+			h.opAdvance(attemptDelay)
+			connectAll()
+		}
+		// the raced event: mostly READY of an in-flight subchannel with addresses remaining
+		rounds := 1 + rng.Intn(3)
+		for k := 0; k < rounds && !h.bad && h.m.timerArmed; k++ {
+			fl := inflight()
+			if len(fl) == 0 {
+				break
+			}
+			sc := fl[rng.Intn(len(fl))]
+			switch x := rng.Intn(10); {
+			case x < 7 || k == rounds-1:
+				h.opRace(h.evDeliver(sc, connectivity.Ready))
+			case x < 9:
+				h.opRace(h.evDeliver(sc, connectivity.TransientFailure))
+			default:
+				h.opRace(h.evUpdate(updateIn{flat: append([]string(nil), h.pool[:2+rng.Intn(4)]...)}))
+			}
+			connectAll()
+		}
+		// whatever happened, a cancelled timer must stay silent later on
+		if !h.bad {
+			h.opAdvance(time.Second)
+		}
+		if h.m.selected != nil && !h.bad && rng.Intn(2) == 0 {
+			h.opDeliver(h.m.selected.sc, connectivity.Idle)
+			h.opExitIdle(true)
+			connectAll()
+			if fl := inflight(); len(fl) > 0 && h.m.timerArmed {
+				h.opRace(h.evDeliver(fl[0], connectivity.Ready))
+			}
+		}
+		h.finish()
+		h.account(fam)
+	})
+}
+
 // ---------------------------------------------------------------- family "hist": random histories
 
 func (h *harness) randomStep() {
 	rng := h.rng
+	if h.m.timerArmed && rng.Intn(6) == 0 && h.randomRace() {
+		return
+	}
 	x := rng.Intn(100)
 	switch {
 	case x < 11:
@@ -1006,12 +1365,17 @@ func newHarness(r *vlib.Run, fam string, i int, rng *rand.Rand) *harness {
 }
 
 func (h *harness) finish() {
-	h.begin()
-	h.opf("Close")
-	h.m.shutdownOthers(nil)
-	h.m.selected = nil
-	h.b.Close()
-	synctest.Wait()
+	if h.m.timerArmed && !h.bad && h.rng.Intn(2) == 0 {
+		h.opRace(h.evClose()) // Close exactly when the attempt timer expires
+	}
+	if !h.m.closed {
+		h.begin()
+		h.opf("Close")
+		h.m.shutdownOthers(nil)
+		h.m.selected = nil
+		h.b.Close()
+		synctest.Wait()
+	}
 	if !h.bad {
 		for _, sc := range h.cc.SubConns() {
 			if !sc.IsShutdown() {
@@ -1361,6 +1725,12 @@ func TestVerifC34(t *testing.T) {
 	for i := 0; i < nScenarios; i++ {
 		if r.Want("scen", i) {
 			runScenario(t, r, i)
+		}
+	}
+	nr := r.N(3000, 40000)
+	for i := 0; i < nr; i++ {
+		if r.Want("race", i) {
+			runRaceCase(t, r, i)
 		}
 	}
 	n := r.N(4000, 80000)
